@@ -5,7 +5,7 @@ import json, os, random, re
 from . import common as C
 
 MUTANTS = ("footer", "label", "key")
-REACH = ("reach-accept", "reach-evil", "reach-refoot")
+REACH = ("reach-accept", "reach-evil", "reach-refoot", "reach-expired")
 
 
 def behaviours(tier, seed, name):
